@@ -30,6 +30,12 @@ var otherBin = func() []byte {
 	return m.Encode()
 }()
 
+var fnBin = func() []byte {
+	m := &wb.Module{Mem: &wb.Limits{Min: 1, Max: 2, HasMax: true}}
+	m.ExportFunc("f", m.AddFunc(nil, nil, nil, (&wb.Asm{}).B))
+	return m.Encode()
+}()
+
 func runScenario(s lib.Scenario, engine string) {
 	ctx := experimental.WithCloseNotifier(context.Background(), notifier{})
 	var cfg wazero.RuntimeConfig
@@ -38,8 +44,17 @@ func runScenario(s lib.Scenario, engine string) {
 	} else {
 		cfg = wazero.NewRuntimeConfigInterpreter()
 	}
+	bin := emptyBin
+	for _, th := range s.Threads {
+		for _, o := range th {
+			if o.K == "ctxCall" || o.K == "call" {
+				cfg = cfg.WithCloseOnContextDone(true)
+				bin = fnBin
+			}
+		}
+	}
 	rt := wazero.NewRuntimeWithConfig(ctx, cfg)
-	compiled, err := rt.CompileModule(ctx, emptyBin)
+	compiled, err := rt.CompileModule(ctx, bin)
 	if err != nil {
 		panic(err)
 	}
@@ -93,6 +108,18 @@ func runScenario(s lib.Scenario, engine string) {
 				case "isClosed":
 					if m := ref(o.Ref); m != nil {
 						_ = m.IsClosed()
+					}
+				case "ctxCall", "call":
+					if m := ref(o.Ref); m != nil {
+						cctx := ctx
+						if o.K == "ctxCall" {
+							var cancel context.CancelFunc
+							cctx, cancel = context.WithCancel(ctx)
+							cancel()
+						}
+						if f := m.ExportedFunction("f"); f != nil {
+							f.Call(cctx)
+						}
 					}
 				case "rtClose":
 					rt.Close(ctx)
